@@ -527,6 +527,12 @@ def self_baseline_variants(res):
             # message texts that quote source text in a non-normalised form: the report must carry them as they are (seeded change C07-m6 NFC-normalised
             # the serialised text only, so the baseline no longer matched the live finding)
             "nfd.py": "password = 'Cafe\u0301-2024'\ntoken = 'A\u030angstro\u0308m'\nsecret = 'plain'\nkey = {'password': '\u1100\u1161\u11a8'}\n",
+            # two findings of ONE identity on ONE line: the baseline lists both, both are accounted for (seeded change C07-m11 de-duplicated baseline entries by
+            # (file, test, line))
+            "same_line.py": "import pickle\ndef f(a, b):\n    return pickle.loads(a) or pickle.loads(b)\nassert x; assert x\nh = [hashlib.md5(p), hashlib.md5(q), hashlib.md5(r)]\n",
+            # a POSIX file name that contains a backslash is just a name (seeded change C07-m12 rewrote `\\` to os.sep when loading a baseline)
+            "gen\\models.py": "import pickle\nassert x\n",
+            "dir\\sub\\m.py": "exec(c)\n",
         }
         for name, src in progs.items():
             p = os.path.join(d, name)
